@@ -30,3 +30,27 @@ func VerifEncodeTimerKey(ks *partitioning.KeySpace, subjectKey []byte, t time.Ti
 func VerifOwnsKey(r partitioning.KeyGroupRange, key []byte) bool {
 	return newOperatorPartition(r, nil).OwnsKey(key)
 }
+
+// VerifKeyGroupRange reports the key-group range the operator currently owns.
+func (o *Operator) VerifKeyGroupRange() partitioning.KeyGroupRange {
+	o.mu.RLock()
+	defer o.mu.RUnlock()
+	return o.keyGroupRange
+}
+
+// VerifStateDBKey encodes a state key exactly as the deployed operator's
+// keyed state store does (with the operator's current key space).
+func (o *Operator) VerifStateDBKey(subjectKey []byte, namespace string, data []byte) []byte {
+	o.mu.RLock()
+	defer o.mu.RUnlock()
+	return o.stateStore.encodeDBKey(subjectKey, namespace, data)
+}
+
+// VerifTimerDBKey encodes a timer key exactly as the deployed operator's
+// timer store does (with the operator's current key space).
+func (o *Operator) VerifTimerDBKey(subjectKey []byte, t time.Time) []byte {
+	o.mu.RLock()
+	defer o.mu.RUnlock()
+	_, key := (&TimerStore{keySpace: o.keySpace}).encodeTimerKey(subjectKey, t)
+	return key
+}
